@@ -9,6 +9,7 @@ CONSTANTS
   Dev_AdoptAckVerbatim = FALSE
   Dev_ServerIgnoresHello = FALSE
   Dev_ServerZeroIsLimit = FALSE
+  Dev_AbortLeaksChunks = FALSE
   Dev_NoSendLimit = TRUE
   Emit = FALSE
 INIT Init
